@@ -218,7 +218,73 @@ func runCaseK(drv *vh.Driver, ci caseInput, gen *genState, nOps int, stopOnKnown
 				}
 			}
 			// ---- correspondence ----
-			if drv != nil {
+			if drv != nil && o.kind == "mreset" {
+				// two model resets (cur->A, then the coalesced A->C), the pool observed after both; iteration orders of
+				// the two runs are searched: same order first, then (small account sets) every pair
+				goLine := "- " + post.text
+				base := append([]int{}, post.beatOrder...)
+				if _, e := ask("SAVE"); e != nil {
+					return ci, nil, st, e
+				}
+				try := func(o1, o2 []int) (string, error) {
+					var got string
+					for _, l := range w.mresetProtos(o, o1, o2) {
+						g, e := ask(l)
+						if e != nil {
+							return "", e
+						}
+						got = g
+					}
+					st.tries++
+					return got, nil
+				}
+				matched := false
+				var first string
+				for _, p := range perms(post.noBeat, 720) {
+					ord := append(append([]int{}, p...), base...)
+					got, e := try(ord, ord)
+					if e != nil {
+						return ci, nil, st, e
+					}
+					if first == "" {
+						first = got
+					}
+					if normRes(got) == goLine {
+						matched = true
+						break
+					}
+					if _, e := ask("RESTORE"); e != nil {
+						return ci, nil, st, e
+					}
+				}
+				if !matched && len(w.addrs) <= 4 {
+					all := make([]int, len(w.addrs))
+					for k := range all {
+						all[k] = k
+					}
+					ps := perms(all, 24)
+				pairs:
+					for _, p1 := range ps {
+						for _, p2 := range ps {
+							got, e := try(p1, p2)
+							if e != nil {
+								return ci, nil, st, e
+							}
+							if normRes(got) == goLine {
+								matched = true
+								break pairs
+							}
+							if _, e := ask("RESTORE"); e != nil {
+								return ci, nil, st, e
+							}
+						}
+					}
+				}
+				if !matched {
+					return ci, &caseFail{kind: "correspondence", clause: "queued-heads", at: i,
+						what: fmt.Sprintf("after op %d (%s): three head changes queued behind a running reorg; the pool's views differ from the model reset to the first and then to the LAST head\n go:   %s\n lean: %s", i, o.text(), goLine, first)}, st, nil
+				}
+			} else if drv != nil {
 				goLine := "-"
 				if len(res) > 0 {
 					goLine = strings.Join(res, ",")
